@@ -297,6 +297,9 @@ def symbolic_run(scenario, cfg, tier, *, max_paths=400, obl_timeout_ms=None, val
                         fh.write("  %s: sym=%r conc=%r\n" % (k1, v1, v2))
             if bad:
                 out["errors"].append("ENCODING-MISMATCH " + "; ".join(bad[:5]))
+                # the runner replays the clauses of this item on the real library with these numbers: if one fails there,
+                # the disagreement is a counterexample found by the concretised twin (a VIOLATION), not a harness error
+                out["twin_mismatch"] = dict(env=twin["env"])
             else:
                 out["validated"] = 1
         except Exception as e:
